@@ -560,7 +560,92 @@ _KIND_BOUNDS = ('16 entry kinds per level (name, a/b shorthand, dotted name, lis
                 'probe dflt() is called inside every level, after every exit and while an exception passes, and must return the '
                 'bindings of a/, a/b/, x/, a.b/ and the root that the reference model gives for the active scope')
 
+# ---- other API calls made while scopes are open must leave the scope stack alone (round e seed C09-e:
+#      clear_config() reset the calling thread's scope stack) ---------------------------------------------------------
+def c09_apis(depth: int, api: int, where: int, how: int) -> bool:
+  """
+  pre: 1 <= depth <= 3 and 0 <= api < 6 and 0 <= where < 3 and 0 <= how < 2
+  """
+  depth, api, how = 1 + rt.pick(depth - 1, 3), rt.pick(api, 6), rt.pick(how, 2)
+  where = rt.pick(where, 3)
+  if where >= depth:
+    rt.discard()
+  rt.sig(('apis', depth, api, where, how), nontrivial=True)
+  with rt.native():
+    world.fresh()
+    names = ['train', 'a/b', 'c'][:depth]
+    expect = []
+    stack = []
+    for n in names:
+      expect = expect + n.split('/')
+      stack.append(list(expect))
+
+    def call_api():
+      if api == 0:
+        gin.clear_config()
+      elif api == 1:
+        gin.clear_config(clear_constants=True)
+      elif api == 2:
+        gin.parse_config('vw.dflt.a = 1')
+      elif api == 3:
+        gin.finalize()
+        with gin.unlock_config():
+          gin.bind_parameter('vw.dflt.b', 2)
+      elif api == 4:
+        gin.config_str()
+        gin.operative_config_str()
+      else:
+        try:
+          gin.parse_config('vw.nosuch.x = 1')
+        except ValueError:
+          pass
+
+    def level(k):
+      with gin.config_scope(names[k]):
+        if gin.current_scope() != stack[k]:
+          return 'scope %r after entering level %d' % (gin.current_scope(), k)
+        if k == where:
+          call_api()
+          if gin.current_scope() != stack[k]:
+            return 'an API call changed the active scope inside the block: %r, expected %r' % (gin.current_scope(), stack[k])
+        if k + 1 < depth:
+          r = level(k + 1)
+          if r:
+            return r
+          if gin.current_scope() != stack[k]:
+            return 'scope %r after leaving level %d, expected %r' % (gin.current_scope(), k + 1, stack[k])
+        if how == 1 and k == depth - 1:
+          raise world.Boom('leave by exception') if hasattr(world, 'Boom') else KeyError('leave by exception')
+      return None
+    try:
+      r = level(0)
+    except Exception as e:   # the exception of how == 1 (or a failure of the scope machinery itself)
+      r = None if (how == 1 and 'leave by exception' in str(e)) else 'exception %r' % (e,)
+    if r:
+      return rt.no(r)
+    try:
+      now = gin.current_scope()
+    except Exception as e:   # noqa
+      return rt.no('current_scope() raised %r after the blocks' % (e,))
+    if now != []:
+      return rt.no('scope %r after the outermost block' % (now,))
+    with gin.config_scope('z'):
+      if gin.current_scope() != ['z']:
+        return rt.no('a later block sees %r' % (gin.current_scope(),))
+  return True
+
+
 HARNESSES = {
+    'c09_apis': dict(
+        fn='c09_apis',
+        anchors=['gin.config:config_scope', 'gin.config:clear_config'],
+        smoke=[dict(depth=3, api=0, where=1, how=0), dict(depth=2, api=3, where=0, how=1), dict(depth=1, api=5, where=0, how=0)],
+        tiers={'quick': dict(split=dict(api=list(range(6))), budget_s=60),
+               'thorough': dict(split=dict(api=list(range(6))), budget_s=60)},
+        bounds='1-3 nested named scopes; at one level another API is called while the blocks are open (clear_config '
+               'with and without constants, parse_config, finalize + unlock_config + bind, the two config strings, a '
+               'failing parse); the active scope must be unchanged right after the call and restored exactly on every '
+               'exit (normal or by exception), and a later block must start from the empty scope'),
     'c09_deferred': dict(
         fn='c09_deferred',
         anchors=['gin.config:config_scope'],
